@@ -22,9 +22,11 @@ LEVEL_NOTE = "Trusted: vf/kernel.py; model.outcome_fixed_point; report line gram
 
 
 def strategy(tier):
-    return graph.graph_case(max_tasks=8 if tier == "quick" else 12, outcomes="some", max_bad=4,
+    from hypothesis import strategies as st
+    general = graph.graph_case(max_tasks=8 if tier == "quick" else 12, outcomes="some", max_bad=4,
                             p_seed_den=5, tape_max=50, tape_hi=31, flags=("again", "stop_early"),
                             jobs=(None, 1, 2, 2, 3, 3, 4, 5))
+    return st.one_of(general, general, graph.layered_case(flags=("stop_early",), p_fail_den=3))
 
 
 def examples(tier):
